@@ -8,6 +8,13 @@ use dcbor::Date;
 use rayon::prelude::*;
 use serde_json::json;
 
+/// the envelope carried as the subject of another one: compressed as a whole, annotated, serialised, decoded, subject uncompressed - the
+/// receiver takes `subject()` (a node that is the subject of a node) and parses that
+fn carried(e: &Envelope) -> Option<Envelope> {
+    let c = e.compress().ok()?.add_assertion("carrier-note", "in transit");
+    let d = Envelope::try_from_cbor_data(c.to_cbor_data()).ok()?;
+    Some(d.uncompress_subject().ok()?.subject())
+}
 fn via(e: &Envelope) -> Option<Envelope> { Envelope::try_from_cbor_data(e.to_cbor_data()).ok() }
 fn count(e: &Envelope, kv: KnownValue) -> usize { let d = M::Known(kv.value()).digest(); e.assertions().iter().filter(|a| a.subject().as_predicate().map(|p| bind::dg(&p)) == Some(d)).count() }
 
@@ -98,7 +105,7 @@ pub fn run(ctx: &Ctx) -> i32 {
                     acc.inc("requests");
                     let mut rq = Request::new_with_body(ex.clone(), id).with_note(note); if let Some(d) = d { rq = rq.with_date(d) }
                     let renv: Envelope = rq.clone().into();
-                    for (lbl, e2) in [("direct", Some(renv.clone())), ("serialized", via(&renv))] {
+                    for (lbl, e2) in [("direct", Some(renv.clone())), ("serialized", via(&renv)), ("carried", carried(&renv))] {
                         acc.inc("roundtrips");
                         match catch(|| e2.clone().map(Request::try_from)) { Ok(Some(Ok(b))) => if b != rq { acc.viol("C18|request|roundtrip|not-equal", "parsed request differs", cid2(lbl), json!({"envelope": crate::report::ff(&renv)})) }, Ok(Some(Err(er))) => acc.viol("C18|request|roundtrip|rejected", format!("{er}"), cid2(lbl), json!({"envelope": crate::report::ff(&renv)})), Ok(None) => acc.viol("C18|request|roundtrip|not-decodable", "", cid2(lbl), json!({})), Err(p) => acc.viol(format!("C18|request|panic|{}", p.loc), p.msg.clone(), cid2(lbl), json!({})) }
                     }
@@ -120,7 +127,7 @@ pub fn run(ctx: &Ctx) -> i32 {
                     acc.inc("events");
                     let mut ev = Event::<Envelope>::new(env.clone(), id).with_note(note); if let Some(d) = d { ev = ev.with_date(d) }
                     let eenv: Envelope = ev.clone().into();
-                    for (lbl, e2) in [("direct", Some(eenv.clone())), ("serialized", via(&eenv))] {
+                    for (lbl, e2) in [("direct", Some(eenv.clone())), ("serialized", via(&eenv)), ("carried", carried(&eenv))] {
                         acc.inc("roundtrips");
                         match catch(|| e2.clone().map(Event::<Envelope>::try_from)) { Ok(Some(Ok(b))) => if b != ev { acc.viol("C18|event|roundtrip|not-equal", "parsed event differs", cid2(lbl), json!({"envelope": crate::report::ff(&eenv)})) }, Ok(Some(Err(er))) => acc.viol("C18|event|roundtrip|rejected", format!("{er}"), cid2(lbl), json!({"envelope": crate::report::ff(&eenv)})), Ok(None) => acc.viol("C18|event|roundtrip|not-decodable", "", cid2(lbl), json!({})), Err(p) => acc.viol(format!("C18|event|panic|{}", p.loc), p.msg.clone(), cid2(lbl), json!({})) }
                     }
